@@ -17,6 +17,9 @@ CHECKS = {
  "C03": ("other", "Path rules over the scanner's MIR (all CFG paths, filter and no-filter, skip and load): the offset handed out with a packet is a tracker read with no tracker-advancing call between it and the completion of the call that produced the returned RDH; the tracker is advanced exactly once per packet by that RDH's offset_to_next and the payload read uses its payload_size; the reader is moved only by the value the tracker was advanced with and input bytes are consumed only by the loaders; the offset range check dominates every use and every Ok result; the filter predicate and the 23-leaf header decode table equal the protocol layout (evaluated symbolically over the 512 wire bits); batch builders push the tuple unchanged with a strict `len < CAP` stop; both reader back-ends advance by exactly the argument. Decides the bookkeeping structure, not OS I/O or channel behaviour.",
          "Trusted: rustc nightly front end, /verif/driver, fpv (CFG dominance, provenance, call graph), oracles/rdh_layout.json.",
          "MIR dominance / must-pass-through / provenance rules + symbolic decode-table equality", "DESIGN.md §3 C03"),
+ "C07": ("other", "Provenance rules on every path: each word error is reported at self.tracker.current_word_mem_pos() and quotes the checked word slice, shown by a parameter-flow fixpoint from CdpRunningValidator::check through all helper methods and closures (no other slice can reach report_error); the word counter is bumped exactly once per word and dominates every report; the offset formula's normal form is (count-1)*(10+pad)+rdh_pos+64 with pad = 6 iff data_format == 0; every formatted Error message starts with an upper-hex offset whose source is a word position, the packet's own offset parameter or the frame start; packet/offset association through CdpArray (push, both iterators) and LinkValidator::do_checks; the dump prints bytes 0..9 in order. The two scanner messages E100/E101 violate the rule and are recorded known findings (F9).",
+         "Trusted: rustc nightly front end, /verif/driver, fpv provenance (single-definition MIR temporaries, reaching definitions for user variables), source text only for recovering format-string literals at resolved macro call sites.",
+         "MIR provenance / parameter-flow fixpoint / dominance; THIR normal form of the offset formula", "DESIGN.md §3 C07"),
 }
 
 NOT_APPLICABLE = {
